@@ -364,7 +364,7 @@ def service_restart_case(pr):
     return None
 
 
-def cases(seed):
+def cases(seed, tier="quick"):
     C = lambda n, fn, what: Case("live", n, fn, what)
     return [
         C("watch-two-edits-250ms", watch_edits_case(0.25, False), "two edits 250 ms apart: the last one ends up built"),
